@@ -14,6 +14,12 @@
 //               asynchronously under abstract addresses and all their concretisations
 //         seq   (C08) DAG with registers, several clock cycles, abstract stimulus sequence vs concretisations (also of the
 //               undefined initial register contents); <stimuliPerCase> = number of runs
+// The C08 DAG modes (conc concw seq) also build tristate / bidirectional pins (tristatePin(data, enable), bidirPin(data)) whose
+// read-back is an expression value; the value driven onto the pad is part of the stimulus.
+// Undefined bits: the simulator keeps a VALUE plane next to the DEFINED plane.  Every undefined stimulus / constant / register
+// bit is given a random VALUE-plane bit (an undefined bit is printed as x whatever its VALUE plane holds), and control operands
+// (selectors, conditions, enables, shift amounts, indices) are routed through NOT / XNOR / NAND / NOR now and then, so that both
+// polarities reach every consumer that looks at the VALUE plane of a possibly undefined operand.
 #include <gatery/pch.h>
 #include "simhelp.h"
 #include "common.h"
@@ -37,6 +43,19 @@
 
 using namespace gtry;
 using vh::Rng;
+
+// Own generator for the VALUE plane under undefined bits (does not disturb the case generator); re-seeded per case.
+static Rng g_xplane(1);
+// "01x" string (MSB first) -> state; the VALUE plane of an undefined bit is random
+static sim::DefaultBitVectorState bitsX(const std::string &str) {
+	sim::DefaultBitVectorState s = vh::bitsFromString(str);
+	for (size_t i = 0; i < s.size(); i++)
+		if (!s.get(sim::DefaultConfig::DEFINED, i)) s.set(sim::DefaultConfig::VALUE, i, g_xplane.chance(1, 2));
+	return s;
+}
+static void setPinX(sim::ReferenceSimulator &sim, hlim::Node_Pin *pin, const std::string &bits) {
+	sim.simProcSetInputPin(pin, sim::convertToExtended(bitsX(bits)));
+}
 
 static const std::vector<size_t> widthClasses = {0, 1, 2, 3, 7, 8, 31, 32, 33, 63, 64, 65, 127, 128, 129, 191, 200};
 
@@ -67,6 +86,8 @@ struct Builder {
 	bool constMode = false;
 	bool wide = true;
 	bool beyond = true;       // static shift/rotate amounts larger than the width are generated
+	bool tristate = false;    // tristate / bidirectional pins are generated (C08 DAG modes)
+	unsigned ctlInv = 6;      // one in `ctlInv` control operands is routed through an inverting gate (0 = never)
 	int maxDepth = 6;
 
 	Builder(Rng &r, std::ostream &os) : rng(r), o(os) {}
@@ -165,7 +186,8 @@ struct Builder {
 	// ---------------------------------------------------------------------------------------------
 	// apply one frontend operator; prints "v <k> <op> <args…> -> <type> <w>"  or  "… -> e"
 	// ---------------------------------------------------------------------------------------------
-	template<class T> T polExt(const T &a, char p) { return ext(a, BitExtend{0}, toExp(p)); }
+	// 'i' = keep the expansion policy the operand carries (from a literal, an ext(), a slice alias of one of these, …)
+	template<class T> T polExt(const T &a, char p) { if (p == 'i') return T(a); return ext(a, BitExtend{0}, toExp(p)); }
 
 	template<class T> const T &vec(int i);
 
@@ -347,6 +369,22 @@ struct Builder {
 		if (op == "tou") return withVec(a[0], [&](auto &x, char) { return push(UInt((UInt)x), 'u', depth); });
 		if (op == "tos") return withVec(a[0], [&](auto &x, char) { return push(SInt((SInt)x), 's', depth); });
 		if (op == "tov") return withVec(a[0], [&](auto &x, char) { return push(BVec((BVec)x), 'v', depth); });
+		// --- tristate pin (data a[0], output enable a[1]) / bidirectional pin without output enable (data a[0]): the value is the
+		//     read-back; the pin node is recorded so that the pad is driven by the stimulus like an input pin
+		if (op == "tri" || op == "tria") {
+			bool en = op == "tri";
+			int r; hlim::Node_Pin *pn;
+			if (V(a[0]).t == 'b') {
+				if (en) { auto p = tristatePin(*V(a[0]).b, *V(a[1]).b); pn = p.node(); r = push(Bit(p), 'b', depth); }
+				else { auto p = bidirPin(*V(a[0]).b); pn = p.node(); r = push(Bit(p), 'b', depth); }
+			} else r = withVec(a[0], [&](auto &x, char t) {
+				using T = std::decay_t<decltype(x)>;
+				if (en) { auto p = tristatePin(x, *V(a[1]).b); pn = p.node(); return push(T((T)p), t, depth); }
+				auto p = bidirPin(x); pn = p.node(); return push(T((T)p), t, depth);
+			});
+			vals[r]->pin = pn;
+			return r;
+		}
 		// --- multiplexer: selector a[0], data a[1..]
 		if (op == "mux") {
 			char t = V(a[1]).t;
@@ -433,6 +471,26 @@ struct Builder {
 		return leaf(t, w == ~0ull ? genWidth() : w);
 	}
 
+	// a control operand (selector, condition, enable, amount, index): now and then routed through an inverting gate, so that an
+	// undefined control bit reaches its consumer with VALUE plane 1 as well as 0 (NOT / XNOR / NAND / NOR / == of undefined inputs)
+	int ctl(int idx, bool dag, unsigned oneIn = 0) {
+		if (!oneIn) oneIn = ctlInv;
+		if (idx < 0 || failed || constMode || !oneIn || !rng.chance(1, oneIn) || V(idx).depth >= maxDepth) return idx;
+		int r = idx;
+		if (V(idx).t == 'b') {
+			switch (rng.below(6)) {
+				case 0: case 1: case 2: r = apply("bnot", {idx}); break;
+				case 3: r = apply("bxnor", {idx, operand('b', dag)}); break;
+				case 4: r = apply(rng.chance(1, 2) ? "bnand" : "bnor", {idx, operand('b', dag)}); break;
+				default: r = apply("beq", {idx, operand('b', dag)}); break;
+			}
+		} else if (V(idx).t == 'u') {
+			if (rng.chance(2, 3)) r = apply("not", {idx});
+			else r = apply(rng.chance(1, 2) ? "xnor.nn" : "nand.nn", {idx, operand('u', dag, V(idx).w)});
+		}
+		return r < 0 ? idx : r;
+	}
+
 	size_t genAmount(size_t w, bool allowBeyond) {
 		size_t a = genAmount0(w, allowBeyond);
 		return allowBeyond ? a : std::min(a, w);
@@ -467,7 +525,7 @@ struct Builder {
 	int genIfChain(bool dag) {
 		size_t ws = rng.range(1, 3);
 		size_t w = wide && rng.chance(1, 3) ? genWidth(1, 200) : rng.range(1, 9);
-		int sel = operand('u', dag, ws);
+		int sel = ctl(operand('u', dag, ws), dag);
 		int d = operand('u', dag, w);
 		size_t n = rng.range(2, 6);
 		int depth = std::max(V(sel).depth, V(d).depth) + 1;
@@ -503,8 +561,9 @@ struct Builder {
 		int last = -1;
 		try {
 			for (size_t j = 0; j < n; j++) {
-				int c = operand('b', dag);
+				int c = ctl(operand('b', dag), dag);
 				int a = operand('u', dag, w);
+				if (failed) return -1;
 				depth = std::max(depth, std::max(V(a).depth, V(c).depth) + 1);
 				IF (*V(c).b)
 					x = *V(a).u;
@@ -518,8 +577,44 @@ struct Builder {
 		return last;
 	}
 
+	// operands whose *carried* expansion policy decides the result: ext(x, +0, policy) [-> slice alias] [-> cast] meets a wider operand
+	// in an operator that is given the operands as they are (policy letters "i")
+	int genPolicyUse(bool dag) {
+		char t = pickVecType();
+		int A = operand(t, dag);
+		if (V(A).w == 0) return -1;
+		static const std::vector<std::string> exts = {"zextby", "oextby", "sextby"};
+		int E = apply(rng.pick(exts), {A}, {0});
+		if (E < 0) return -1;
+		int S = E;
+		if (rng.chance(2, 3)) {
+			size_t w = V(E).w;
+			switch (rng.below(3)) {
+				case 0: S = apply("lower", {E}, {rng.range(1, w)}); break;
+				case 1: S = apply("upper", {E}, {rng.range(1, w)}); break;
+				default: { size_t sw = rng.range(1, w); S = apply("slice", {E}, {rng.below(w - sw + 1), sw}); } break;
+			}
+			if (S < 0) return -1;
+		}
+		size_t wb = V(S).w + rng.range(1, wide ? 70 : 9);
+		int B = operand(t, dag, wb);
+		const auto &names = t == 'u' ? binU() : t == 's' ? binS() : binV();
+		std::string name = rng.pick(names);
+		if (t == 's' && (name == "lt" || name == "gt" || name == "leq" || name == "geq" || name == "mul")) name = "add";
+		return rng.chance(1, 2) ? apply(name + ".in", {S, B}) : apply(name + ".ni", {B, S});
+	}
+
 	int genOp(bool dag, bool allowMalformed) {
 		if (!constMode && rng.chance(1, dag ? 7 : 14)) return rng.chance(2, 3) ? genIfChain(dag) : genIfPrio(dag);
+		if (rng.chance(1, 12)) return genPolicyUse(dag);
+		if (tristate && rng.chance(1, 7)) {
+			char t = "busv"[rng.below(4)];
+			int D = operand(t, dag, t == 'b' ? 1 : genWidth(1, 200));
+			if (rng.chance(1, 6)) return apply("tria", {D});
+			int E = ctl(operand('b', dag), dag, 2);
+			if (failed) return -1;
+			return apply("tri", {D, E});
+		}
 		unsigned cat = (unsigned)rng.below(100);
 		if (cat < 30) { // binary with policies
 			char t = pickVecType();
@@ -592,7 +687,8 @@ struct Builder {
 			std::string name = rng.pick(ops);
 			if (V(A).w == 0 && (name == "drotl" || name == "drotr")) return -1; // Node_Shift: amountVal %= 0 (DESIGN.md O2) — not generated
 			size_t wamt = rng.chance(4, 5) ? rng.range(0, 8) : rng.range(9, 63);
-			int B = operand('u', dag, wamt);
+			int B = ctl(operand('u', dag, wamt), dag);
+			if (failed) return -1;
 			return apply(name, {A, B});
 		}
 		if (cat < 74) { // extension
@@ -628,13 +724,17 @@ struct Builder {
 				case 6: {
 					if (w == 0) return -1;
 					size_t wi = rng.range(1, 5);
-					return apply("dbit", {A, operand('u', dag, wi)});
+					int I = ctl(operand('u', dag, wi), dag);
+					if (failed) return -1;
+					return apply("dbit", {A, I});
 				}
 				default: {
 					if (w == 0) return -1;
 					size_t wi = rng.range(1, 4);
 					size_t sw = rng.range(1, std::min<size_t>(w, 9));
-					return apply("dslice", {A, operand('u', dag, wi)}, {sw});
+					int I = ctl(operand('u', dag, wi), dag);
+					if (failed) return -1;
+					return apply("dslice", {A, I}, {sw});
 				}
 			}
 		}
@@ -653,8 +753,9 @@ struct Builder {
 			else if (rng.chance(1, 6) && t == 'u') { n += rng.range(1, 2); zsel = true; }
 			size_t w = t == 'b' ? 1 : genWidth();
 			std::vector<int> a;
-			if (ws == 1 && !zsel && rng.chance(1, 2)) a.push_back(operand('b', dag)); else a.push_back(operand('u', dag, ws));
+			if (ws == 1 && !zsel && rng.chance(1, 2)) a.push_back(ctl(operand('b', dag), dag)); else a.push_back(ctl(operand('u', dag, ws), dag));
 			for (size_t i = 0; i < n; i++) a.push_back(operand(t, dag, w));
+			if (failed) return -1;
 			return apply(zsel ? "muxz" : "mux", a);
 		}
 		if (cat < 97) { // priority select
@@ -663,7 +764,8 @@ struct Builder {
 			size_t n = rng.range(0, 4);
 			std::vector<int> a;
 			a.push_back(operand(t, dag, w));
-			for (size_t i = 0; i < n; i++) { a.push_back(operand('b', dag)); a.push_back(operand(t, dag, w)); }
+			for (size_t i = 0; i < n; i++) { a.push_back(ctl(operand('b', dag), dag)); a.push_back(operand(t, dag, w)); }
+			if (failed) return -1;
 			return apply("prio", a);
 		}
 		if (cat < 99) { // literal operand
@@ -729,7 +831,9 @@ struct Net {
 			std::ostringstream kind;
 			if (auto *pin = dynamic_cast<hlim::Node_Pin*>(n)) {
 				auto it = pinIdx.find(pin);
-				kind << "in " << (it == pinIdx.end() ? -1 : it->second);
+				// a pin with an output driver (tristate / bidirectional): inputs data, output enable; the pad value is stimulus <idx>
+				kind << (pin->isOutputPin() && pin->isInputPin() ? "tri " : "in ") << (it == pinIdx.end() ? -1 : it->second);
+				if (pin->isOutputPin() && !pin->isInputPin()) ok = false;
 			} else if (dynamic_cast<hlim::Node_Signal*>(n)) kind << "sig";
 			else if (auto *l = dynamic_cast<hlim::Node_Logic*>(n)) kind << "logic " << logicName(l->getOp());
 			else if (auto *a = dynamic_cast<hlim::Node_Arithmetic*>(n)) kind << "arith " << arithName(a->getOp());
@@ -783,10 +887,13 @@ static std::string concretise(Rng &rng, const std::string &abs, bool full) {
 
 static void runCase(uint64_t caseSeed, size_t id, const std::string &mode, size_t nstim, std::ostream &o) {
 	Rng rng(caseSeed);
+	g_xplane = Rng(caseSeed ^ 0x7a3d9e11c5ull);
 	o << "case " << id << ' ' << mode << ' ' << caseSeed << '\n';
 	DesignScope design;
 	Builder b(rng, o);
 	bool conc = mode == "conc" || mode == "concw";
+	b.tristate = conc;
+	if (conc) b.ctlInv = 3;
 	// one in three DAG cases is simulated a second time after design.postprocess() on the same stimuli (users simulate post-processed designs)
 	bool post = (mode == "dag" || mode == "dags") && rng.chance(1, 3);
 	b.constMode = mode == "const";
@@ -898,7 +1005,7 @@ static void runCase(uint64_t caseSeed, size_t id, const std::string &mode, size_
 			allStim.push_back(stim);
 			for (size_t k = 0; k < pins.size(); k++) {
 				auto &v = *b.vals[pins[k]];
-				if (v.w) sim.set(v.pin, stim[k]);
+				if (v.w) setPinX(sim.sim, v.pin, stim[k]);
 				o << "pv " << pins[k] << ' ' << stim[k] << '\n';
 			}
 			sim.eval();
@@ -931,7 +1038,7 @@ static void runCase(uint64_t caseSeed, size_t id, const std::string &mode, size_
 				for (size_t s = 0; s < allStim.size(); s++) {
 					for (size_t k = 0; k < pins.size(); k++) {
 						auto &v = *b.vals[pins[k]];
-						if (v.w) sim2.set(v.pin, allStim[s][k]);
+						if (v.w) setPinX(sim2.sim, v.pin, allStim[s][k]);
 					}
 					sim2.eval();
 					o << "pxv " << s;
@@ -952,12 +1059,13 @@ static void runCase(uint64_t caseSeed, size_t id, const std::string &mode, size_
 // contents replaced by 0/1); every node value of every cycle is printed.
 static void runSeq(uint64_t caseSeed, size_t id, size_t nruns, std::ostream &o) {
 	Rng rng(caseSeed);
+	g_xplane = Rng(caseSeed ^ 0x7a3d9e11c5ull);
 	o << "case " << id << " seq " << caseSeed << '\n';
 	DesignScope design;
 	Clock clk({.absoluteFrequency = 100'000'000});
 	ClockScope clkScope(clk);
 	Builder b(rng, o);
-	b.wide = false; b.beyond = false;
+	b.wide = false; b.beyond = false; b.tristate = true; b.ctlInv = 3;
 	size_t nregs = rng.range(1, 4);
 	std::vector<UInt> q;
 	std::vector<int> qIdx;
@@ -972,6 +1080,7 @@ static void runSeq(uint64_t caseSeed, size_t id, size_t nruns, std::ostream &o) 
 	size_t nops = rng.range(4, 20);
 	for (size_t i = 0; i < nops && !b.failed; i++) b.genOp(true, false);
 	std::vector<hlim::Node_Register*> regNodes;
+	std::vector<std::string> regInit;
 	for (size_t i = 0; i < nregs && !b.failed; i++) {
 		size_t w = q[i].size();
 		int d = b.operand('u', true, w);
@@ -982,15 +1091,16 @@ static void runSeq(uint64_t caseSeed, size_t id, size_t nruns, std::ostream &o) 
 		int en = -1;
 		if (rng.chance(2, 3)) {
 			rst = b.undefBits(b.genBits(w), rng.chance(1, 5) ? 1 : 0);
-			auto *c = DesignScope::createNode<hlim::Node_Constant>(vh::bitsFromString(rst), hlim::ConnectionType::BITVEC);
+			auto *c = DesignScope::createNode<hlim::Node_Constant>(bitsX(rst), hlim::ConnectionType::BITVEC);
 			reg->connectInput(hlim::Node_Register::RESET_VALUE, {.node = c, .port = 0});
 		}
 		if (rng.chance(1, 2)) {
-			en = b.operand('b', true);
+			en = b.ctl(b.operand('b', true), true);
 			reg->connectInput(hlim::Node_Register::ENABLE, b.V(en).port);
 		}
 		q[i] = UInt(SignalReadPort(reg));
 		regNodes.push_back(reg);
+		regInit.push_back(rst == "-" ? std::string(w, 'x') : rst); // power-on content: the reset value, all undefined without one
 		o << "reg " << i << " q=a" << qIdx[i] << " data=a" << d << " rst=" << rst << " en=" << (en < 0 ? std::string("-") : "a" + std::to_string(en)) << '\n';
 	}
 	if (b.failed || b.vals.empty()) { o << "end\n"; return; }
@@ -1033,12 +1143,15 @@ static void runSeq(uint64_t caseSeed, size_t id, size_t nruns, std::ostream &o) 
 			sim.powerOn();
 			bool full = r % 3 != 0;
 			if (r == 0) o << "stim 0\n"; else o << "stimc " << r << (full ? " full" : " part") << '\n';
+			// what the simulator holds after power-on (compared by the driver with the requested reset value / all-x)
+			for (size_t i = 0; i < regNodes.size(); i++)
+				o << "reginit " << i << ' ' << vh::bitsToString(sim.getValueOfOutput({.node = regNodes[i], .port = 0})) << '\n';
 			if (r > 0) {
-				// undefined initial register contents are part of what a concretisation fixes
-				for (auto *reg : regNodes) {
-					std::string cur = vh::bitsToString(sim.getValueOfOutput({.node = reg, .port = 0}));
-					std::string c = concretise(rng, cur, full);
-					if (c != cur) sim.simProcOverrideRegisterOutput(reg, vh::bitsFromString(c));
+				// undefined initial register contents are part of what a concretisation fixes; the abstract content is the *requested* one
+				for (size_t i = 0; i < regNodes.size(); i++) {
+					std::string c = concretise(rng, regInit[i], full);
+					o << "regset " << i << ' ' << c << '\n';
+					sim.simProcOverrideRegisterOutput(regNodes[i], bitsX(c));
 				}
 			}
 			for (size_t t = 0; t < T; t++) {
@@ -1046,7 +1159,7 @@ static void runSeq(uint64_t caseSeed, size_t id, size_t nruns, std::ostream &o) 
 				for (size_t k = 0; k < pins.size(); k++) {
 					auto &v = *b.vals[pins[k]];
 					std::string val = r == 0 ? absStim[t][k] : concretise(rng, absStim[t][k], full);
-					if (v.w) sim.simProcSetInputPin(v.pin, sim::convertToExtended(vh::bitsFromString(val)));
+					if (v.w) setPinX(sim, v.pin, val);
 					o << "pv " << pins[k] << ' ' << val << '\n';
 				}
 				sim.reevaluate();
@@ -1070,6 +1183,7 @@ static void runSeq(uint64_t caseSeed, size_t id, size_t nruns, std::ostream &o) 
 // post-processed.  Every abstract address (0..3 undefined bits) is followed by ALL its concretisations.
 static void runMem(uint64_t caseSeed, size_t id, std::ostream &o) {
 	Rng rng(caseSeed);
+	g_xplane = Rng(caseSeed ^ 0x7a3d9e11c5ull);
 	o << "case " << id << " mem " << caseSeed << '\n';
 	DesignScope design;
 	Clock clk({.absoluteFrequency = 100'000'000});
@@ -1096,7 +1210,7 @@ static void runMem(uint64_t caseSeed, size_t id, std::ostream &o) {
 	}
 	auto stateOf = [&](const std::vector<std::string> &c) {
 		sim::DefaultBitVectorState st; st.resize(depth * w);
-		for (size_t k = 0; k < depth; k++) st.insert(vh::bitsFromString(c[k]), k * w);
+		for (size_t k = 0; k < depth; k++) st.insert(bitsX(c[k]), k * w);
 		return st;
 	};
 	o << "mem " << depth << ' ' << w << ' ' << exact << ' ' << post << ' ' << aw << '\n';
@@ -1152,7 +1266,7 @@ static void runMem(uint64_t caseSeed, size_t id, std::ostream &o) {
 				o << (r == 0 ? "stim " : "stimc ") << s << '\n';
 				for (size_t p = 0; p < nports; p++) {
 					std::string a = p == 0 ? c0[r] : (r == 0 ? abs[p] : concretise(rng, abs[p], rng.chance(1, 2)));
-					sim.set(addrPins[p], a);
+					setPinX(sim.sim, addrPins[p], a);
 					o << "pv " << p << ' ' << a << '\n';
 				}
 				try {
@@ -1177,6 +1291,22 @@ static void runMem(uint64_t caseSeed, size_t id, std::ostream &o) {
 static void runLit(uint64_t caseSeed, size_t id, std::ostream &o) {
 	Rng rng(caseSeed);
 	o << "case " << id << " lit " << caseSeed << '\n';
+	if (rng.chance(1, 6)) {
+		// Bit(char) -> sim::parseBit: '0' '1' 'x' 'X' are bits, everything else is rejected
+		static const std::string cands = "01xX01xXzZ-2uUhHlLwW 9aOI";
+		char c = rng.chance(3, 4) ? cands[rng.below(8)] : (rng.chance(1, 2) ? cands[rng.below(cands.size())] : (char)rng.range(33, 126));
+		o << "blit " << (int)(unsigned char)c << '\n';
+		DesignScope design;
+		std::string r;
+		try {
+			Bit x(c);
+			auto *cn = dynamic_cast<hlim::Node_Constant*>(x.readPort().node);
+			r = cn ? vh::bitsToString(cn->getValue()) : std::string("?");
+			if (cn && !cn->getOutputConnectionType(0).isBool()) r += ":notbool";
+		} catch (const gtry::utils::DesignError &) { r = "e"; } catch (const gtry::utils::InternalError &) { r = "E"; }
+		o << "-> " << r << '\n' << "end\n";
+		return;
+	}
 	std::string s;
 	unsigned kind = (unsigned)rng.below(5);
 	const char *digitsFor[] = {"01", "01234567", "0123456789abcdefABCDEF", "0123456789"};
